@@ -43,13 +43,24 @@ type CPlan struct {
 	Inner     bool     `json:"inner_yields"` // also pre-empt inside the list's critical sections
 	Auto      uint32   `json:"auto_density"` // 0: off; d: honour statement-level points whose hash is 0 mod d
 	AutoSalt  uint32   `json:"auto_salt"`
+	// Preload: so many complete events (a third of them with three records) are
+	// pushed through the Reassembler by the driver before the tasks exist: what a
+	// long-running process has accumulated when the interesting moment comes.
+	Preload   int      `json:"preload,omitempty"`
+	// PreOpen: so many further events are left open (one record, no terminator)
+	// by the preload, in a Reassembler with room for them; whoever closes has
+	// them all to deliver.
+	PreOpen int `json:"pre_open,omitempty"`
 	Ticker    bool     `json:"ticker"` // one extra task calls Maintain every 500 ms (as cmd/auparse does)
 	Ticks     int      `json:"ticks"`
 }
 
 func (p *CPlan) Valid() bool {
-	if p.Max < 0 || p.Max > 64 || len(p.Tasks) > 6 || p.Ticks < 0 || p.Ticks > 20 || p.StickyMod < 0 {
+	if p.Max < 0 || (p.Max > 64 && p.PreOpen == 0) || p.Max > 6000 || len(p.Tasks) > 6 || p.Ticks < 0 || p.Ticks > 20 || p.StickyMod < 0 || p.Preload < 0 || p.Preload > 70000 || p.PreOpen < 0 || p.PreOpen > 5000 {
 		return false
+	}
+	if p.PreOpen > 0 && (p.Preload == 0 || p.Max < p.PreOpen+8 || p.Timeout < 3600e9 || p.Auto != 0 || p.Inner) {
+		return false // (statement-level pre-emption inside a flush of thousands of events would be thousands of steps)
 	}
 	for _, t := range p.Tasks {
 		if len(t) > 40 {
@@ -78,11 +89,12 @@ const (
 	cprTwoClosers
 	cprLockBlocked
 	cprKeyWait
+	cprPreload
 	nCProbes
 )
 
 var cProbeNames = []string{"context_switch_at_internal_yield", "callback_reentered_reassembler", "close_invoked_while_other_call_in_flight",
-	"message_left_buffered_push_returned_after_close", "event_delivered_after_close_returned", "two_or_more_close_calls", "task_seen_blocked_on_real_lock", "task_parked_waiting_for_modelled_lock"}
+	"message_left_buffered_push_returned_after_close", "event_delivered_after_close_returned", "two_or_more_close_calls", "task_seen_blocked_on_real_lock", "task_parked_waiting_for_modelled_lock", "reassembler_preloaded_with_300_to_70000_events"}
 
 var cFaultNames = []string{"stalled_task", "clock_step", "reentrant_callback", "already_expired_timeout", "concurrent_close", "statement_level_preemption"}
 
@@ -167,6 +179,17 @@ func GenCPlan(r *core.Rng) *CPlan {
 			p.Reenter = append(p.Reenter, re)
 		}
 	}
+	if r.Chance(1, 400) {
+		p.Preload = core.Pick(r, 300, 600, 1100, 2100, 4200, 9000, 17000, 33000, 66000, 70000)
+		if r.Chance(1, 3) {
+			p.PreOpen = core.Pick(r, 100, 300, 520, 700, 1100, 2100)
+			p.Max = p.PreOpen + core.Pick(r, 8, 64, 2000)
+			p.Timeout = 3600e9
+			if closers == 0 {
+				p.Tasks[0] = append(p.Tasks[0], COp{K: opClose})
+			}
+		}
+	}
 	p.Ticker = r.Chance(1, 5)
 	if p.Ticker {
 		p.Ticks = r.Range(1, 6)
@@ -182,6 +205,9 @@ func GenCPlan(r *core.Rng) *CPlan {
 	}
 	for i := 0; i < n; i++ {
 		p.Tape = append(p.Tape, uint16(r.Intn(1<<16)))
+	}
+	if p.PreOpen > 0 {
+		p.Auto, p.Inner = 0, false
 	}
 	return p
 }
@@ -229,6 +255,10 @@ func (s *cShared) nextCB() int {
 }
 
 type cStream struct {
+	pre      int                       // > 0 while the driver preloads: records delivered so far (nothing is recorded)
+	preLate  int                       // preloaded records delivered after the preload (those left open)
+	kept     [][]*auparse.AuditMessage // some of the slices handed over, as a Stream may keep them
+	keptCopy [][]*auparse.AuditMessage // what they held then
 	h     *core.Hist
 	sc    *core.Sched
 	sh    *cShared
@@ -254,6 +284,20 @@ func msgID(m *auparse.AuditMessage) int {
 }
 
 func (s *cStream) ReassemblyComplete(msgs []*auparse.AuditMessage) {
+	if s.pre > 0 {
+		s.pre += len(msgs)
+		if s.pre%37 == 0 && len(s.kept) < 4096 {
+			s.keep(msgs)
+		}
+		return
+	}
+	if len(msgs) > 0 && msgs[0] != nil && msgs[0].RawData == "pre" {
+		s.notePreLate(len(msgs)) // left open by the preload: counted, not recorded one by one
+		return
+	}
+	if len(s.kept) < 4096 {
+		s.keep(msgs)
+	}
 	n := s.sh.nextCB()
 	s.h.Rec(evGroup, int64(n), int64(len(msgs)), 0, 0, "")
 	for _, m := range msgs {
@@ -289,7 +333,38 @@ func (s *cStream) ReassemblyComplete(msgs []*auparse.AuditMessage) {
 	}
 }
 
+//go:norace
+func (s *cStream) keep(msgs []*auparse.AuditMessage) {
+	s.kept = append(s.kept, msgs)
+	s.keptCopy = append(s.keptCopy, append([]*auparse.AuditMessage(nil), msgs...))
+}
+
+//go:norace
+func (s *cStream) notePreLate(n int) { s.preLate += n }
+
+// keptIntact reports the first kept slice whose elements are no longer the
+// messages it was handed over with (-1: all intact).
+//
+//go:norace
+func (s *cStream) keptIntact() int {
+	for i, k := range s.kept {
+		c := s.keptCopy[i]
+		if len(k) != len(c) {
+			return i
+		}
+		for j := range k {
+			if k[j] != c[j] {
+				return i
+			}
+		}
+	}
+	return -1
+}
+
 func (s *cStream) EventsLost(count int) {
+	if s.pre > 0 {
+		return
+	}
 	s.h.Rec(evLost, int64(count), 0, 0, 0, "")
 	if t := s.sc.Me(); t != nil {
 		t.Yield("lost")
@@ -361,6 +436,36 @@ func ExecCPlan(p *CPlan, trace bool) *core.Result {
 	if err != nil {
 		res.Add("C11", "constructor-failed", "new", err.Error())
 		return res
+	}
+	if p.Preload > 0 {
+		st.pre = 1
+		pushed := 0
+		sq := p.Base - uint32(p.Preload+p.PreOpen) - 16 // older than anything the tasks push
+		for j := 0; j < p.Preload; j++ {
+			if j%3 == 0 {
+				for _, typ := range []uint16{tSYSCALL, tPATH, tPROCTITLE} {
+					ra.PushMessage(&auparse.AuditMessage{RecordType: auparse.AuditMessageType(typ), Sequence: sq + uint32(j), RawData: "pre"})
+					pushed++
+				}
+			} else {
+				ra.PushMessage(&auparse.AuditMessage{RecordType: auparse.AuditMessageType(tUSERAUTH), Sequence: sq + uint32(j), RawData: "pre"})
+				pushed++
+			}
+			if j%1000 == 999 {
+				ra.Maintain()
+			}
+		}
+		if st.pre-1 != pushed {
+			res.Add("C11", "message-not-delivered", "preload", fmt.Sprintf("%d records of %d complete events were pushed by one goroutine before the tasks started, %d were delivered", pushed, p.Preload, st.pre-1))
+		}
+		for j := 0; j < p.PreOpen; j++ {
+			ra.PushMessage(&auparse.AuditMessage{RecordType: auparse.AuditMessageType(tSYSCALL), Sequence: sq + uint32(p.Preload+j), RawData: "pre"})
+		}
+		if st.pre-1 != pushed {
+			res.Add("C11", "message-not-delivered", "preload", fmt.Sprintf("%d unfinished events pushed into a Reassembler with room for %d: %d records were delivered", p.PreOpen, p.Max, st.pre-1-pushed))
+		}
+		st.pre = 0
+		res.Probes[cprPreload]++
 	}
 	// pre-create every message before the tasks are forked.
 	ids := map[*auparse.AuditMessage]int{}
@@ -494,7 +599,7 @@ func ExecCPlan(p *CPlan, trace bool) *core.Result {
 			res.Add("C11", "panic", "task", "task "+t.Name+" panicked: "+t.Panic)
 		}
 	}
-	judgeC11(p, evs, res, sc)
+	judgeC11(p, evs, res, sc, st)
 	return res
 }
 
@@ -528,7 +633,7 @@ func sortedOpIDs[V any](m map[int64]V) []int64 {
 }
 
 // judgeC11 evaluates the C11 oracle over the totally ordered history.
-func judgeC11(p *CPlan, evs []core.Ev, res *core.Result, sc *core.Sched) {
+func judgeC11(p *CPlan, evs []core.Ev, res *core.Result, sc *core.Sched, st *cStream) {
 	type opInfo struct {
 		k         int
 		off       uint32
@@ -628,6 +733,12 @@ func judgeC11(p *CPlan, evs []core.Ev, res *core.Result, sc *core.Sched) {
 	}
 	if allReturned && closeCalls > 0 && closeOK != 1 {
 		res.Add("C11", "close-winners", strconv.Itoa(closeOK), fmt.Sprintf("%d Close calls were made and %d returned nil", closeCalls, closeOK))
+	}
+	if i := st.keptIntact(); i >= 0 {
+		res.Add("C11", "duplicate-delivery", "kept-slice", fmt.Sprintf("a slice that was handed to the Stream (%d messages) holds other messages at the end of the run", len(st.keptCopy[i])))
+	}
+	if allReturned && closeOK == 1 && p.PreOpen > 0 && st.preLate != p.PreOpen {
+		res.Add("C11", "message-not-delivered", "preload", fmt.Sprintf("%d unfinished events were buffered before Close was invoked; %d of their records were delivered", p.PreOpen, st.preLate))
 	}
 	if allReturned && closeOK == 1 {
 		for _, id := range sortedOpIDs(ops) {
